@@ -14,6 +14,12 @@ type Mutation struct {
 	Ins int    `json:"ins"` // index into InsertPool for insert
 }
 
+// Scramble spreads a small-biased generator draw (rapid prefers small integers) evenly; 0 stays 0,
+// so a shrunk case still points at the first position.
+func Scramble(x int) int {
+	return int((uint32(x) * 2654435761) >> 9)
+}
+
 // MutationOps lists the edit kinds.
 var MutationOps = []string{"none", "delete", "insert", "duplicate", "swap", "swapfar"}
 
